@@ -138,12 +138,12 @@ def job_route(E, opt, mv, _mutants=None):
     nvals = 0
     if kind == "list":
         nvals = 1 + E.choice("nvals", 2)
-        vals = [OStr("v%d" % i, nonempty=True) for i in range(nvals)]
+        vals = [_plain(OStr("v%d" % i, nonempty=True)) for i in range(nvals)]
         value = vals
         if nvals == 2:
             E.witnesses["list option with two values"] = True
     elif kind == "str":
-        value = OStr("v0", nonempty=True)
+        value = _plain(OStr("v0", nonempty=True))
         nvals = 1
     elif kind == "flag":
         value = True
@@ -294,12 +294,19 @@ def job_out_inside(E, mv, _mutants=None):
         E.witnesses.setdefault(k_, True)
 
 
+def _plain(o):
+    """Option values have no surrounding whitespace (a configuration file cannot express one that has: configparser
+    strips values), so the three routes can be given the same value."""
+    o._outer_ws = False
+    return o
+
+
 def _value(opt, tag):
     kind = OPTIONS[opt][3]
     if kind == "list":
-        return [OStr("%s.v0" % tag, nonempty=True), OStr("%s.v1" % tag, nonempty=True)]
+        return [_plain(OStr("%s.v0" % tag, nonempty=True)), _plain(OStr("%s.v1" % tag, nonempty=True))]
     if kind == "str":
-        return OStr("%s.v" % tag, nonempty=True)
+        return _plain(OStr("%s.v" % tag, nonempty=True))
     if kind == "flag":
         return True
     return kind.split(":", 1)[1]
@@ -662,9 +669,10 @@ def replay(params, model, notes, workdir, seed):
         opt, mv = params["opt"], params["mv"]
         flag, ckey, kw, kind = OPTIONS[opt]
         inline = any(k.endswith(".has-inline-comment") and int(v) == 1 for k, v in model.items())
+        comma = any(k.endswith(".has[,]") and int(v) == 1 for k, v in model.items())
         if kind == "list":
             n = 1 + int(model.get("nvals", 0))
-            value = ["http://v/%d" % i + (" ; mirror #%d" % i if inline else "") for i in range(n)]
+            value = ["http://v/%d" % i + ("?auth=ab,cd" if comma else "") + (" ; mirror #%d" % i if inline else "") for i in range(n)]
         elif kind == "str":
             value = "true" if int(model.get("v0.is[lower:true]", 0)) else ("false" if int(model.get("v0.is[lower:false]", 0)) else "some value")
             if inline:
